@@ -77,3 +77,18 @@
 (assert (and (= (slen str_dot) 1) (= (at str_dot 0) 46)))
 (assert (and (= (slen str_null) 4) (= (at str_null 0) 110) (= (at str_null 1) 117) (= (at str_null 2) 108) (= (at str_null 3) 108)))
 (assert (and (= (slen str_dot0) 2) (= (at str_dot0 0) 46) (= (at str_dot0 1) 48)))
+
+; ---- C01 / C03 leaf facts about strconv (assumed; sampled by the bounded oracles) ------------------
+; ParseInt(s, 0, 64): isIdx / parseIdx (declared with the tree-form spec); every int round-trips through Itoa
+(declare-fun pfOK (Str) Bool)            ; strconv.ParseFloat(s, 64) succeeds
+(declare-fun pfVal (Str) F64)
+(declare-fun pbOK (Str) Bool)            ; strconv.ParseBool(s) succeeds
+(declare-fun pbVal (Str) Bool)
+(assert (forall ((f F64)) (! (and (pfOK (ffmtE f)) (= (pfVal (ffmtE f)) f)) :pattern ((ffmtE f)))))
+(assert (forall ((f F64)) (! (and (pfOK (ffmtF f)) (= (pfVal (ffmtF f)) f)) :pattern ((ffmtF f)))))
+(assert (forall ((f F64)) (! (=> (not (hasDot (ffmtF f))) (and (pfOK (app (ffmtF f) str_dot0)) (= (pfVal (app (ffmtF f) str_dot0)) f))) :pattern ((app (ffmtF f) str_dot0)))))
+(assert (forall ((b Bool)) (! (and (pbOK (fmtBool b)) (= (pbVal (fmtBool b)) b)) :pattern ((fmtBool b)))))
+; number tokens are not the literal null
+(assert (forall ((i Int)) (! (not (= (itoa i) str_null)) :pattern ((itoa i)))))
+(assert (forall ((f F64)) (! (not (= (ffmtE f) str_null)) :pattern ((ffmtE f)))))
+(assert (forall ((f F64)) (! (and (not (= (ffmtF f) str_null)) (not (= (app (ffmtF f) str_dot0) str_null))) :pattern ((ffmtF f)))))
